@@ -457,12 +457,23 @@ def main():
             chk.disagreement(cmd, case, impl_answer[:80], model_answer[:80])
     stats['model_requests'] = len(requests)
     stats['model_disagreements'] = n_dis
+    # "…and by no other combination of their fields": the REAL Clock.wait_until on a wall clock
+    # that moves between any two readings of it, started a few readings before a minute or an
+    # hour ends (shared with C10: harness/c10.py drift_cases)
+    import c10
+    import simnet
+    from bardolph.lib import clock as clock_mod, settings as settings_mod
+    from bardolph.controller.script_job import ScriptJob
+    simnet.install(c10.POP, settings_overrides={'sleep_time': 0.25})
+    c10.drift_cases(chk, (clock_mod, settings_mod, TP, ScriptJob), stats)
     chk.coverage['distribution'] = stats
     chk.coverage['rule'] = (
         'all 15851 syntactically well-formed patterns (each against its 24 hour and 60 minute '
         'positions; the full 24x60 product for a subset, all in the thorough tier); every string '
         'over 0-9*: up to length {} through from_string and up to length {} (+ random longer) '
         'through the real lexer/parser; or-lists through the real TIME_PATTERN/WAIT instructions; '
+        'the real Clock.wait_until under virtual time that advances 1/1024 s per reading of the clock, '
+        'started 1-3 readings before a minute / an hour ends; '
         'non-trivial = accepted pattern or or-list, distinct by text'.format(L, Lc))
     chk.coverage['exhaustive'] = True
     chk.assumptions += [
